@@ -35,12 +35,13 @@ func init() {
 
 // spxInst is one live instance of a scenario, after its prelude.
 type spxInst struct {
-	s     *vsched.Sched
-	srv   *harness.Server
-	cl    *harness.Client
-	start func()
-	env   []*harness.EnvThread
-	mark  int // client role: frames received from the client before the explored phase
+	s           *vsched.Sched
+	srv         *harness.Server
+	cl          *harness.Client
+	start       func()
+	env         []*harness.EnvThread
+	mark        int // client role: frames received from the client before the explored phase
+	markStreams int
 }
 
 func (x *spxInst) startEnv(ts ...*harness.EnvThread) {
@@ -246,6 +247,13 @@ func c19Resp(sc *harness.SrvConn, id uint32, body string) []byte {
 	return frames(sc.RespFrames(id, []ref.Field{{Name: ":status", Value: "200"}, {Name: "x-common", Value: "the-same-response-value"}, {Name: "x-id", Value: fmt.Sprint(id)}}, nil, nil, [][]byte{[]byte(body)}, -1)...)
 }
 
+// c19StaticResp is a response that does not touch the dynamic table (usable on a connection that does not exist yet).
+func c19StaticResp(id uint32, body string) []byte {
+	enc := harness.NewPeerEncoder()
+	blk := enc.Block([]ref.Field{{Name: ":status", Value: "200"}, {Name: "x-id", Value: fmt.Sprint(id)}}, func(int) ref.EncChoice { return ref.EncChoice{Rep: ref.RepWithout} })
+	return frames(peer.Headers(id, blk, peer.HeadersOpt{EndHeaders: true, Pad: -1}), peer.Data(id, []byte(body), true, -1))
+}
+
 func c19Spec(tag string, body []byte) harness.ReqSpec {
 	return harness.ReqSpec{Tag: tag, Method: "POST", Path: "/" + tag, Headers: [][2]string{{"X-Common", "the-same-value-every-time"}}, Body: body}
 }
@@ -300,6 +308,12 @@ func clientScenarios() []*spxScenario {
 						{Kind: "peerclose"},
 					}},
 					&harness.EnvThread{Name: "user", Steps: []harness.EnvStep{{Kind: "spawn-caller", Spec: c19Spec("b", nil)}}},
+					// the connection the client dials next: handshake, then an answer to each of its first two streams
+					&harness.EnvThread{Name: "server1", Steps: []harness.EnvStep{
+						{Kind: "inject", Conn: 1, Bytes: frames(peer.Settings(), peer.SettingsAck())},
+						{Kind: "inject", Conn: 1, WaitHeaders: 1, Bytes: c19StaticResp(1, "n1")},
+						{Kind: "inject", Conn: 1, WaitHeaders: 2, Bytes: c19StaticResp(3, "n2")},
+					}},
 				)
 			}
 			return x
